@@ -64,7 +64,7 @@ class ProgGen:
                 labels = arrgen.gen_labels(rng, len(legs), prefer=prefer) if rng.random() < 0.85 else None
                 d = arrgen.gen_tensor(rng, mods, legs, dtype=dtype, labels=labels)
             ops.append(d)
-        return mods, pool, ops
+        return mods, pool, self.name_operands(rng, mods, ops)
 
     @staticmethod
     def flip(l):
@@ -494,8 +494,10 @@ class ProgGen:
         if i is None:
             return None
         a = vals[i]
-        return dict(op='getitem_int', **{'in': [i]},
-                    inds=[self.rng.randrange(s) - (s if self.rng.random() < 0.2 else 0) for s in a.shape])
+        inds = [self.rng.randrange(s) - (s if self.rng.random() < 0.2 else 0) for s in a.shape]
+        if a.rank >= 2 and self.rng.random() < 0.3:     # fewer integers than legs: a[i], a[i, j] (sub-tensor)
+            inds = inds[:self.rng.randint(1, a.rank - 1)]
+        return dict(op='getitem_int', **{'in': [i]}, inds=inds)
 
     def g_scale_axis(self, vals, arrs):
         i = self.pick(arrs, vals)
@@ -534,13 +536,12 @@ class ProgGen:
         i = self.pick(arrs, vals)
         a = vals[i]
         if self.rng.random() < 0.3:
+            # (False, False) = nothing to do: identity permutations and a shallow copy
             s, b = self.rng.random() < 0.8, self.rng.random() < 0.8
-            if not s and not b:
-                s = True
             return dict(op='sort_legcharge', via='bools', **{'in': [i]}, sort=[s] * a.rank, bunch=[b] * a.rank)
         sort = [self.rng.random() < 0.6 for _ in range(a.rank)]
         bunch = [self.rng.random() < 0.6 for _ in range(a.rank)]
-        if not any(sort) and not any(bunch):
+        if not any(sort) and not any(bunch) and self.rng.random() < 0.5:
             sort[0] = True
         return dict(op='sort_legcharge', via='lists', **{'in': [i]}, sort=sort, bunch=bunch)
 
@@ -936,6 +937,7 @@ class ProgGen:
                 labs = [l for l in a._labels if l is not None]
                 if labs:
                     choices += [('label', rng.choice(labs))]
+                choices += [('qconj', rng.choice([0, 2, -2]))]
             if op == 'squeeze':
                 non = [k for k in range(a.rank) if a.shape[k] != 1]
                 if non:
@@ -952,7 +954,8 @@ class ProgGen:
             if op == 'combine_legs':
                 first = st['cl'][0]
                 choices += [('cl', [first + [first[0]]] + st['cl'][1:]), ('cl', [[bad_ax] + first[1:]] + st['cl'][1:]),
-                            ('new_axes', [a.rank + 3] * len(st['cl'])), ('qconj', [1, -1, 1])]
+                            ('new_axes', [a.rank + 3] * len(st['cl'])), ('qconj', [1, -1, 1]),
+                            ('qconj', [rng.choice([0, 2, -3])]), ('qconj', [rng.choice([0, 2])])]
             if op == 'split_legs':
                 non = [k for k, l in enumerate(a.legs) if not isinstance(l, self.npc.LegPipe)]
                 if non:
@@ -1126,3 +1129,17 @@ class ProgGen:
         legs equal only up to flip_charges_qconj): see harness/c01_cov.py."""
         from harness import c01_cov
         return c01_cov.gen_coverage_case(self, rng, max_steps)
+
+    # ------------------------------------------------------------------ charge names (ChargeInfo.names)
+    def name_operands(self, rng, mods, ops):
+        """With probability 0.25 all tensors of a program carry charge names (one named ChargeInfo for every leg
+        built while the program runs, see arrio.set_default_names). Conflicting and partially missing names are
+        generated by the coverage stream (harness/c01_cov.py, recipe `r_reported`)."""
+        self.ex.io.set_default_names(None)
+        if not mods or rng.random() >= 0.25:
+            return ops
+        names = [rng.choice(['N', 'Sz', 'parity', 'K']) + str(k) for k in range(len(mods))]
+        for d in ops:
+            d['names'] = list(names)
+        self.ex.io.set_default_names(names)
+        return ops
